@@ -66,6 +66,7 @@ func Now() Time {
 	if !virtual() {
 		return time.Now()
 	}
+	vsched.ClockPoint()
 	return Base.Add(Duration(offset.Load()))
 }
 
@@ -92,13 +93,14 @@ func Advance(d Duration) {
 // AdvanceNoPoint moves the clock without a schedule point (set-up code).
 func AdvanceNoPoint(d Duration) { vsched.NoteClock(offset.Add(int64(d))) }
 
-// Sleep under the scheduler is a voluntary switch point; virtual time does not move.
+// Sleep under the scheduler is the body of a polling loop (vsched.Gosched): the thread goes on
+// after another thread has made a step; virtual time does not move.
 func Sleep(d Duration) {
 	if !virtual() {
 		time.Sleep(d)
 		return
 	}
-	vsched.Yield()
+	vsched.Gosched()
 }
 
 // Ticker mirrors time.Ticker.
